@@ -250,14 +250,18 @@ func allScenarios() []scenario {
 			c4k1.AddEdge(e[0], e[1])
 		}
 		p5 := graph.Path(5)
+		// results are kept and printed again later: a returned permutation belongs to the caller
+		var heldA, heldB [][]int
 		return &instance{threads: []threadBody{
 			opsBody(
-				func() string { p, o, g := graph.CanonicalIsomorphFull(c4k1, nil); return fmt.Sprint(p, o, g) },
-				func() string { p, o, g := graph.CanonicalIsomorphFull(c4k1, [][]int{{0, 2}, {1, 3, 4}}); return fmt.Sprint(p, o, g) },
+				func() string { p, o, g := graph.CanonicalIsomorphFull(c4k1, nil); heldA = append(heldA, p); return fmt.Sprint(p, o, g) },
+				func() string { p, o, g := graph.CanonicalIsomorphFull(c4k1, [][]int{{0, 2}, {1, 3, 4}}); heldA = append(heldA, p); return fmt.Sprint(p, o, g, heldA) },
+				func() string { p := graph.CanonicalIsomorph(graph.Star(4)); heldA = append(heldA, p); return fmt.Sprint(heldA) },
 			),
 			opsBody(
-				func() string { p, o, g := graph.CanonicalIsomorphFull(p5, nil); return fmt.Sprint(p, o, g) },
-				func() string { return fmt.Sprint(graph.CanonicalIsomorph(graph.Cycle(6))) },
+				func() string { p, o, g := graph.CanonicalIsomorphFull(p5, nil); heldB = append(heldB, p); return fmt.Sprint(p, o, g) },
+				func() string { p := graph.CanonicalIsomorph(graph.Cycle(6)); heldB = append(heldB, p); return fmt.Sprint(heldB) },
+				func() string { p := graph.CanonicalIsomorph(graph.Path(3)); heldB = append(heldB, p); return fmt.Sprint(heldB) },
 			),
 		}}
 	}})
@@ -343,6 +347,40 @@ func allScenarios() []scenario {
 				},
 				func() string { b, _ := d.GobEncode(); return fmt.Sprint(len(b), strHash(string(b))) },
 			),
+		}}
+	}})
+	out = append(out, scenario{"dawg-shared-wide", func() *instance {
+		// a Dawg with wide nodes (20 and 12 links, final inner nodes): link-count dependent code paths
+		var ws []string
+		ws = append(ws, "")
+		for i := 0; i < 20; i++ {
+			l := string([]byte{byte('a' + i)})
+			ws = append(ws, l)
+			if i%4 == 0 {
+				for j := 0; j < 12; j++ {
+					ws = append(ws, l+string([]byte{byte('a' + j)}))
+				}
+			}
+		}
+		sort.Strings(ws)
+		d, err := dawg.New(wordsBytes(ws...))
+		if err != nil {
+			panic(err)
+		}
+		look := func(words ...string) func() string {
+			return func() string {
+				s := ""
+				for _, w := range words {
+					r, ok := d.Lookup([]byte(w))
+					s += fmt.Sprint(r, ok, " ")
+				}
+				return s
+			}
+		}
+		return &instance{shared: map[string]interface{}{"dawg": d}, threads: []threadBody{
+			opsBody(look("t", "ea", "el", "", "zz"), look("a", "ab", "ma"), look("q", "ia")),
+			opsBody(look("s", "al", "m"), func() string { return searchObs(d, dawg.NewPatternSearcher([]byte("?c"), '?')) }),
+			opsBody(func() string { return searchObs(d, dawg.NewAnagramSearcher([]byte("a?"), '?')) }, look("e", "ek", "t")),
 		}}
 	}})
 	for _, rep := range []string{"dense", "sparse"} {
